@@ -7,7 +7,7 @@ use crate::model::calendar as cal;
 use crate::model::fmt_spec::{render, Kind};
 use crate::model::instant::*;
 use super::diff::*;
-use astrolabe::{Date, DateTime, Time, TimeUtilities};
+use astrolabe::{Date, DateTime, DateUtilities, Offset, OffsetUtilities, Precision, Time, TimeUtilities};
 use serde_json::{json, Value};
 use std::str::FromStr;
 
@@ -92,10 +92,18 @@ fn judge_time(rec: &mut Rec, n: u64, off: i32) {
     rec.nontrivial(hash_i128s(&[n as i128, off as i128, 0x20]));
     let v = val_of(Kind::Time, n as i128, off);
     let hms = render(&v, "HH:mm:ss").unwrap();
-    let Some((t, _)) = sane_time(n, off) else {
+    // The Display and serde claims are relative to the value's own HH:mm:ss, so they are judged even where the
+    // model-based construction check fails (then only the model-written FromStr text is skipped).
+    let sane = sane_time(n, off).is_some();
+    let built = trap(|| Time::from_nanos(n).ok().map(|t| t.set_offset(Offset::Fixed(off)))).ok().flatten();
+    let Some(t) = built else {
         rec.bin(SKIP_START);
         return;
     };
+    if !sane {
+        rec.bin(SKIP_START);
+        rec.bin("time/relative-claims-only(value-not-canonical)");
+    }
     let local_secs = v.tod / 1_000_000_000;
     let r = trap(|| {
         let shown = t.to_string();
@@ -121,6 +129,7 @@ fn judge_time(rec: &mut Rec, n: u64, off: i32) {
                 rec.bin("note/format-differs-from-model(other-property)");
             }
             match parsed {
+                _ if !sane => {}
                 Ok(1) => {}
                 Ok(-1) => rec.bin(SKIP_EXPECTED),
                 other => rec.violation("C20|time|FromStr|does-not-read-HH:mm:ss".to_string(), || wit(json!(format!("{:?} (1 = the time written)", other)))),
@@ -148,22 +157,32 @@ fn judge_datetime(rec: &mut Rec, i: i128, off: i32) {
         Some(d) => d,
         None => return,
     };
-    let Some((dt, _)) = sane_value(i, off) else {
+    let sane = sane_value(i, off).is_some();
+    let built = if representable(i) && representable(i + off as i128 * NS) { trap(|| mk_off(i, off)).ok() } else { None };
+    let Some(dt) = built else {
         rec.bin(SKIP_START);
         return;
     };
+    if !sane {
+        rec.bin(SKIP_START);
+        rec.bin("datetime/relative-claims-only(value-not-canonical)");
+    }
     let want = i.div_euclid(NS) * NS;
     let r = trap(|| {
         let shown = dt.to_string();
         let disp_lib = dt.format("yyyy/MM/dd HH:mm:ss");
         let (js, back) = if serde_claim {
             let js = serde_json::to_string(&dt).map_err(|e| e.to_string());
-            let back = js.clone().and_then(|j| serde_json::from_str::<DateTime>(&j).map_err(|e| e.to_string())).map(|p| match diff_with_expected(&p, want, off) {
+            let back = js.clone().and_then(|j| serde_json::from_str::<DateTime>(&j).map_err(|e| e.to_string())).map(|p| if !sane {
+                // relative form of the claim: same text form to the second, same timestamp, same offset
+                let same = p.format_rfc3339(Precision::Seconds) == dt.format_rfc3339(Precision::Seconds) && p.timestamp() == dt.timestamp() && p.get_offset() == dt.get_offset();
+                if same { (1i8, String::new()) } else { (0, format!("deserialized value writes {} / timestamp {} but the original writes {} / timestamp {}", p.format_rfc3339(Precision::Seconds), p.timestamp(), dt.format_rfc3339(Precision::Seconds), dt.timestamp())) }
+            } else { match diff_with_expected(&p, want, off) {
                 Ok(Diff::Same) => (1i8, String::new()),
                 Ok(Diff::Skip) => (-1, String::new()),
                 Ok(Diff::Differs(g, e)) => (0, format!("deserialized value reads {} but the original (to the second) reads {}", g.to_json(), e.to_json())),
                 Err(pn) => (0, format!("deserialized value unreadable: {}", pn.msg)),
-            });
+            }});
             (Some(js), Some(back))
         } else {
             (None, None)
@@ -245,6 +264,10 @@ fn judge_malformed(rec: &mut Rec, kind: Kind, text: &str) {
 }
 
 pub fn run(ctx: &Ctx) -> PropResult {
+    // for every offset (quick: every whole-minute offset and every 89th other one): the stored times whose local
+    // reading is exactly midnight, one nanosecond / one second either side of it, and exactly noon
+    let offs: Vec<i32> = (-86_399..=86_399).filter(|o| !ctx.quick() || o % 60 == 0 || o % 89 == 0).collect();
+    let offs_r = &offs;
     let mut wls = vec![];
     wls.push(Workload::cases("dates", ctx.count(120_000, 4_000_000), |rec, _, rng| {
         let day = match rng.below(8) {
@@ -272,6 +295,14 @@ pub fn run(ctx: &Ctx) -> PropResult {
         };
         judge_time(rec, sec * 1_000_000_000 + *rng.pick(&[0u64, 0, 1, 999_999_999, 500_000_000]), off);
     }));
+    wls.push(Workload::cases("times_local_midnight_per_offset", offs.len() as u64 * 6, move |rec, idx, _| {
+        const DN: i128 = 86_400_000_000_000;
+        let off = offs_r[(idx / 6) as usize];
+        let delta: i128 = [0, 1, -1, 1_000_000_000, -1_000_000_000, 43_200_000_000_000][(idx % 6) as usize];
+        let n = (delta - off as i128 * NS).rem_euclid(DN) as u64;
+        rec.bin("time/local-midnight-stratum");
+        judge_time(rec, n, off);
+    }));
     wls.push(Workload::cases("datetimes", ctx.count(150_000, 5_000_000), |rec, idx, rng| {
         let (i, off) = if idx % 3 == 0 {
             gen_fmt_value(rng)
@@ -282,9 +313,12 @@ pub fn run(ctx: &Ctx) -> PropResult {
                 _ => rng.range_i64(-1439, 1439) as i32 * 60,
             };
             let hi = cal::days_from_civil(9999, 12, 31) as i128 * D + D - 1;
-            let local = match rng.below(4) {
+            let local = match rng.below(6) {
                 0 => rng.range_i128(0, 2 * D),
                 1 => hi - rng.range_i128(0, 2 * D),
+                // local reading exactly on a midnight, or the UTC instant exactly on one (± 1 s / 1 ns)
+                2 => (rng.range_i128(1, hi / D) * D + *rng.pick(&[0i128, 0, 1, -1, NS, -NS])).clamp(0, hi),
+                3 => (rng.range_i128(1, hi / D - 1) * D + off as i128 * NS + *rng.pick(&[0i128, 0, 1, -1, NS, -NS])).clamp(0, hi),
                 _ => rng.range_i128(0, hi),
             };
             (local - off as i128 * NS, off)
@@ -303,11 +337,11 @@ pub fn run(ctx: &Ctx) -> PropResult {
     let out = run_workloads(ctx, wls);
     let mut meta = PropMeta::default();
     meta.rule = format!(
-        "Dates: range ends, ±10^6 days, ±400 years, 5–7 digit years of both signs, leap days, uniform over all 2^32 days — to_string() vs the documented yyyy/MM/dd, str::parse of the model-written yyyy-MM-dd, serde_json round trip (text and value). Times: every {} second of the day x 3 offsets (0, one that moves the local time across midnight, uniform) — Display, FromStr of HH:mm:ss, serde shows the same HH:mm:ss. DateTimes: Display for all eras/offsets; serde (years 1..=9999, whole-minute offsets) returns the same instant to the second and the same offset. Malformed: delete/insert/replace/truncate mutations (multi-byte, NUL, signs, digits) of well-formed texts through serde_json and FromStr — an error, never a panic. Every case non-trivial; distinct by input hash.",
+        "Dates: range ends, ±10^6 days, ±400 years, 5–7 digit years of both signs, leap days, uniform over all 2^32 days — to_string() vs the documented yyyy/MM/dd, str::parse of the model-written yyyy-MM-dd, serde_json round trip (text and value). Times: every {} second of the day x 3 offsets (0, one that moves the local time across midnight, uniform), and for every offset (quick: whole-minute offsets and every 89th other) the stored times whose local reading is exactly midnight, ±1 ns, ±1 s, and noon — Display, FromStr of HH:mm:ss, serde shows the same HH:mm:ss. DateTimes: Display for all eras/offsets; serde (years 1..=9999, whole-minute offsets) returns the same instant to the second and the same offset. Malformed: delete/insert/replace/truncate mutations (multi-byte, NUL, signs, digits) of well-formed texts through serde_json and FromStr — an error, never a panic. Every case non-trivial; distinct by input hash.",
         if ctx.quick() { "11th" } else { "single" }
     );
     meta.required_bins = vec![
-        "year/negative", "year/negative-5+digits", "year/5+digits", "year/<4digits", "year/4digits", "time/offset0", "time/with-offset",
+        "year/negative", "year/negative-5+digits", "year/5+digits", "year/<4digits", "year/4digits", "time/offset0", "time/with-offset", "time/local-midnight-stratum",
         "datetime/serde-claimed", "datetime/display-only", "datetime/negative-offset", "malformed/rejected",
     ];
     meta.assumptions = vec!["serde is exercised through serde_json (string serializer/deserializer); fmt_spec supplies the documented default renderings".into()];
